@@ -2,3 +2,6 @@ from propcfg.common import *
 from propcfg.tmplcommon import *
 
 CFG = dict(TMPL_C08)
+CFG["proof_modules"] = ["SafeHtml.Proofs.ConcApi"]
+CFG["level_text"] = CFG["level_text"] + " Proofs/ConcApi.lean (part 2) proves that the two nil-dereference panic sites of the analysis and of commit are unreachable under invariants that every critical section preserves (analysis_newMemo, commit_no_panic, analysis_panics, escapeTemplateTop_no_nil_panics, top_keeps_hasT_noNil)."
+CFG["level_note"] = "Not proved unreachable: 'node shared between templates', 'command without arguments', the escapeText no-progress guard, 'template escaping out of sync', execution of a called template whose tree is nil (apiClone can register one: NoNil is a genuine hypothesis), and fuel sufficiency; they are covered by oracle + correspondence only."
